@@ -63,6 +63,17 @@ CHECKS = {
         note="Bounded: retry <= 2/3, <= 2/3 callers, timeouts scaled to 3 polls; loop stalls not modelled as unbounded "
              "delays.",
         ref="5/C06"),
+    "C07": dict(
+        text="Inductive over atomic segments (one Handle._run() on a virtual loop): every consumer that the real "
+             "GeckoAsyncSpa._connect registers (collected at run time) and a waiting request, from an arbitrary queue/mark "
+             "pre-state with a symbolic head datagram - a capable consumer takes the head exactly once and clears the mark, "
+             "an incapable one changes nothing; the unhandled consumer's two segments against the four interference "
+             "classes; framed packets with symbolic identifiers, foreign sender or malformed inner framing (also right "
+             "after a valid packet) have no effect; a 6-segment run of the real unhandled consumer against an arbitrary "
+             "environment bounds the time a datagram spends at the head.",
+        note="Bounded datagram lengths; whole-system statement follows from the atomicity of segments between suspending "
+             "awaits (assumption).",
+        ref="5/C07"),
     "C11": dict(
         text="Construction of the real GeckoAsyncFacade for all 895 shipped combinations (concrete, maximally wired block); "
              "then, per representative of every facade-relevant table signature, the block is replaced by a fully symbolic "
